@@ -127,6 +127,10 @@ def export_shapes():
            ("exists", [("x", INT)], ("And", ("exists", [("y", INT)], ("LT", x, y)), ("LT", x, z))),
            ("forall", [("a", BOOL)], ("And", ("forall", [("b", BOOL), ("c", BOOL)], ("Or", a, b, c)), ("forall", [("c", BOOL)], ("Or", c, a)), a)),
            ("exists", [("x", INT), ("y", INT)], ("exists", [("x", INT)], ("exists", [("z", INT)], ("LT", ("Plus", x, y), z))))]
+    # a quantifier that occurs only inside a theory atom / as the argument of an application
+    sh += [("LT", ("Ite", ("forall", [("y", INT)], ("LT", y, ("Plus", y, x))), L(1, INT), L(0, INT)), z),
+           ("Equals", ("fun", "g", INT, (BOOL,), ("exists", [("x", INT)], ("LT", x, y))), z),
+           ("BVULT", ("Ite", ("forall", [("u", B4)], ("BVULE", L(0, B4), u)), v, L(1, B4)), v)]
     # sorts that occur on bound variables only, or only as the index sort of a constant array
     SB, SC, PB_ = ("CUSTOM", "Sb"), ("CUSTOM", "Sc"), ("CUSTOM", "PairB", (INT, ("CUSTOM", "Sb")))
     sh += [("exists", [("xb", SB), ("yb", SB)], ("Not", ("Equals", S("xb", SB), S("yb", SB)))),
@@ -177,6 +181,15 @@ def _export_job(shape_t):
     def call(w, it, f):
         if hr_first:
             it.call(it.getattr(f, "serialize"), [])
+            # ... and the sorts of its symbols were asked for their text in both styles (messages, other printers)
+            for sy in sorted(w.free_symbols(f), key=lambda n: w.npayload(n)[0]):
+                ty = w.npayload(sy)[1]
+                for style in (False, True):
+                    try:
+                        it.call(it.getattr(ty, "as_smtlib"), [], {"funstyle": style})
+                    except (AbsRaise, Unsupported):
+                        pass
+                w.to_str(it, ty)
         mod = w.repo.modules["pysmt.smtlib.script"]
         mk = it.module_global(mod, "smtlibscript_from_formula")
         try:
@@ -274,6 +287,9 @@ def _export_eval(shape, shape_t, dag, w, f, val):
                 out["c07"] = ("invalid", "the asserted term %s does not denote the formula: %s" % (refsmt.term_str(live[0]), why))
             else:
                 out["c07"] = ("unsupported", why)
+        # the logic the script names must admit what it asserts: no quantifier under a QF_ logic
+        if out["c07"][0] == "valid" and isinstance(ref.logic, str) and ref.logic.startswith("QF_") and _has_binder(live[0]):
+            out["c07"] = ("invalid", "the script sets the quantifier-free logic %s and asserts a quantified term" % ref.logic)
         # formula-only text, read in the declarations of the script
         if out["c07"][0] == "valid":
             try:
@@ -317,6 +333,19 @@ def _export_eval(shape, shape_t, dag, w, f, val):
     return out
 
 
+def _has_binder(t):
+    stack = [t]
+    while stack:
+        x = stack.pop()
+        if getattr(x, "op", None) in ("FORALL", "EXISTS"):
+            return True
+        stack.extend(getattr(x, "args", ()) or ())
+        p_ = getattr(x, "payload", None)
+        if hasattr(p_, "op"):
+            stack.append(p_)
+    return False
+
+
 _EXPORT = {}
 
 
@@ -347,7 +376,8 @@ def export_results(repo, tier="quick"):
         jobs = [sh.t for sh in shapes]
         # names both concrete syntaxes have to quote: also exported after a human-readable print
         jobs += [("after-hr", sh.t) for sh in export_shapes()
-                 if _mentions(sh.t, set(ODD_NAMES)) and not _mentions(sh.t, SMT_UNDECLARABLE | SMT_UNSPELLABLE)]
+                 if (_mentions(sh.t, set(ODD_NAMES)) or "'fun'" in repr(sh.t) or "ARRAY" in repr(sh.t) or "CUSTOM" in repr(sh.t))
+                 and not _mentions(sh.t, SMT_UNDECLARABLE | SMT_UNSPELLABLE)]
         first = _export_job(jobs[0])          # warms the per-process tables before the pool forks
         _EXPORT[key] = first + [r for rs in parallel_map(_export_job, jobs[1:]) for r in rs]
     return _EXPORT[key]
